@@ -425,7 +425,8 @@ def _brief(r):
 # ------------------------------------------------------------------ generators
 SCORES = list(SETUP_SEGS)
 ANALYZERS = ["max", "peak", "none"]
-EXCS = ["PvFault", "ValueError", "MemoryError", "KeyError", "RuntimeError", "OSError", "PvSilentFault"]
+EXCS = ["PvFault", "ValueError", "MemoryError", "KeyError", "RuntimeError", "OSError", "PvSilentFault", "AttributeError", "TypeError",
+        "IndexError", "ZeroDivisionError", "NotImplementedError", "AssertionError", "AttributeError"]
 
 
 def _base(rng, parallel=False):
@@ -496,6 +497,24 @@ def _sweep(ctx, rng, nconf, tag):
             check(ctx, dict(sc, faults=[list(p)]), tag)
             n += 1
     return n
+
+
+def _exc_matrix(ctx, rng, tag, nconf):
+    """every program-point kind x every kind of exception (what is raised must not decide whether the search fails)"""
+    kinds = list(dict.fromkeys(EXCS))
+    for c in range(nconf):
+        sc = _base(rng)
+        sc.update(mode="subsets", splits={"0": 2}, nrot=2, analyzer=["max", "peak"][c % 2], memmap=False)
+        pts = _points(ctx, sc)
+        first = {}
+        for p in pts:
+            first.setdefault(p[0], p)
+            if p[1] == 1:
+                first.setdefault(p[0] + "@tile1", p)
+        for ph, p in first.items():
+            for k in kinds:
+                check(ctx, dict(sc, faults=[list(p)], exc=k), tag)
+                ctx.count(f"exc-matrix:{p[0]}")
 
 
 def _random_seq(ctx, rng, count, tag):
@@ -718,6 +737,7 @@ def _run(ctx):
     rng = ctx.rng("main")
     t0 = time.time()
     _sweep(ctx, rng, ctx.budget(4, 30), "sweep")
+    _exc_matrix(ctx, rng, "excmatrix", ctx.budget(1, 4))
     _random_seq(ctx, rng, ctx.budget(50, 900), "rand")
     _special(ctx, rng, "special", ctx.budget(4, 20))
     t1 = time.time()
